@@ -86,7 +86,7 @@ def run_shard(shard, ctx):
         ctx.case((text, None), nontrivial=False)
         ctx.evaluations += 1
         if full[0] != "ok" or set(full[1]["tracks"]) != present:
-            ctx.violation("selection", dict(text=text, want=None, shape="full", acceptable=[["ok", "<tracks %s>" % sorted(present)]]), "no selection must yield all tracks of the file %r, got %r" % (sorted(present), full[1] if full[0] == "err" else sorted(full[1]["tracks"])))
+            ctx.violation("selection", dict(text=text, want=None, shape="full", present=sorted(present), acceptable=[["ok", "<tracks %s>" % sorted(present)]]), "no selection must yield all tracks of the file %r, got %r" % (sorted(present), full[1] if full[0] == "err" else sorted(full[1]["tracks"])))
             return
         for sm in range(1 << (U + 1)):
             if ctx.out_of_time():
@@ -199,5 +199,6 @@ def replay(case):
         return [] if ok else [dict(key="non-interference", msg="still differs", case=case)]
     if isinstance(case["acceptable"][0][1], str):
         full = impl.model_outcome(case["text"], "file", None, (), "full")
-        return [] if full[0] == "ok" else [dict(key="selection", msg="unrestricted parse fails", case=case)]
+        good = full[0] == "ok" and ("present" not in case or sorted(full[1]["tracks"]) == case["present"])
+        return [] if good else [dict(key="selection", msg="the unrestricted parse fails or does not yield exactly the tracks of the file", case=case)]
     return e1.replay_model_case(case, "selection")
